@@ -8,7 +8,7 @@ from .common import TOL
 
 PROPERTY = "C14"
 LEVEL = "exploration"
-RUNS = {"quick": 1200, "thorough": 40000}
+RUNS = {"quick": 3500, "thorough": 40000}
 RULE = ("seeded scenarios: a real client submits 3-15 requests (CON/NON mix, by URI) to 2-3 scripted peers in short "
         "intervals; per request the peer reacts with ACK, ACK + later separate response, piggybacked response, RST or "
         "silence after a chosen delay; ICMP errors per remote and (separate configuration) failing sendmsg calls are "
